@@ -32,6 +32,10 @@ def gen(rng, tier):
     if rng.random() < 0.4:
         focus["facilities"] = True
     spec = C.gen_edit(rng, C.maybe_from_json(rng, C.maybe_history(rng, C.forward_spec(rng, tier, focus), 0.3)))
+    if rng.random() < 0.1 and not any(t.get("nf") for t in spec["model"]["tasks"]):
+        spec["model"]["comp_ctor_tasks"] = True  # BaseComponent(targeted_task_list=[...]): the tasks do not know their component
+        if spec.get("history") is None and rng.random() < 0.6:
+            spec["from_json"] = True
     if spec.get("history") is None and not spec.get("edit") and rng.random() < 0.2:
         if not spec["cfg"].get("absence"):
             spec["cfg"]["absence"] = G.gen_absence(rng, 16, rng.randint(2, 6))
@@ -134,10 +138,10 @@ def check_edited_logs(res, tr, marks, op="insert_absence"):
                         "after %s_time_list(%s): at log index %d component %s is logged NONE, its tasks %s"
                         % (op, tr.edit, i, c.ID, [SNAME.get(x, x) for x in tl]), i)
                 return
-            if op == "remove_absence" and any(x == WORKING for x in tl) and clog[i] != WORKING:
-                res.add("edit", "C14.after_remove_absence.task_working_component_not",
-                        "after remove_absence_time_list(): at log index %d component %s is logged %s although a task is logged WORKING (%s)"
-                        % (i, c.ID, SNAME.get(clog[i], clog[i]), [SNAME.get(x, x) for x in tl]), i)
+            if op in ("remove_absence", "simulate") and any(x == WORKING for x in tl) and clog[i] != WORKING:
+                res.add("edit", "C14.after_%s.task_working_component_not" % op,
+                        "after %s: at log index %d component %s is logged %s although a task is logged WORKING (%s)"
+                        % (op, i, c.ID, SNAME.get(clog[i], clog[i]), [SNAME.get(x, x) for x in tl]), i)
                 return
 
 
@@ -176,6 +180,9 @@ def run(spec):
         o = D.call(lambda: tr.project.remove_absence_time_list())
         if o.ok:
             check_edited_logs(res, tr, [], op="remove_absence")
+    if tr.out.ok and not spec.get("edit") and not spec.get("remove"):
+        # the finished logs themselves: entry by entry the component's log stands in the same relation to its tasks' logs
+        check_edited_logs(res, tr, [], op="simulate")
     if tr.out.ok:
         check_reporting_is_read_only(res, tr)
     return C.finish(res, tr)
